@@ -1,4 +1,5 @@
 import Txtpp.Lemmas.SinkFacts
+import Txtpp.Lemmas.Hermetic
 /-!
 # Property C08 — builds are a function of the sources only (hermetic, idempotent)
 -/
@@ -35,5 +36,17 @@ theorem temp_overwrites (cfg : Cfg) (wd : Path) (src : List Char) (fs fs' : FS) 
 theorem temp_idempotent (cfg : Cfg) (wd : Path) (src : List Char) (fs : FS) (t c : List Char) (p : Path)
     (hp : fs.resolve cfg wd t = some p) (hnd : fs.isDir p = false) (h : fs.file? p = some (encodeUtf8 c)) :
     (fileWorld cfg wd src).writeTemp fs t c = some fs := writeTemp_same cfg wd src fs t c p hp hnd h
+
+/-- Project level, for every dependency graph and whatever a pass computes (`render`, local in its
+dependencies): two successful runs over the same sources and inputs — started from *different*
+contents of the generated files (`out0`, `out0'`: stale, truncated, arbitrary, absent), under
+different schedules and thread counts — finish exactly the same set of files and leave every
+output with the same value. The result depends on the sources only. -/
+theorem builds_are_a_function_of_sources {C : Type} (w : Coord.World) (R : Coord.Sem C) (hR : Coord.RenderLocal w R)
+    (inputs : List Coord.File) (out0 out0' : Coord.File → Coord.OutState C) (x x' : Coord.WSt C)
+    (h : Coord.WReach w R inputs out0 x) (h' : Coord.WReach w R inputs out0' x')
+    (hq : x.st.pool = []) (hno : ¬ Coord.Leftover x.st) (hq' : x'.st.pool = []) (hno' : ¬ Coord.Leftover x'.st) :
+    (∀ f, f ∈ x.st.dm.fin ↔ f ∈ x'.st.dm.fin) ∧ ∀ f ∈ x.st.dm.fin, x.outp f = x'.outp f :=
+  Coord.hermetic w R hR inputs out0 out0' x x' h h' hq hno hq' hno'
 
 end C08
